@@ -17,18 +17,27 @@ Scope predicates (all decidable, all satisfied by the generated cases — see th
 * `Ty.supB`          BaseConverter's documented support inside that scope (data *unstructured* by a BaseConverter):
                     additionally no TypedDict, no `Annotated` (no BaseConverter hook pair exists for either), NewType
                     and heterogeneous tuples over primitives only (BaseConverter passes their values through
-                    unchanged), `Literal` over leaf values (the model's `Literal` does not cover enum members);
+                    unchanged), `Literal` over leaf values or containing enum members;
 * `World.supBOn S`   the same world-level demand (`World.supB`: every field typed and in `Ty.supB`) restricted to a
                     closed set `S` of classes (`C01_roundtrip_interp_on`);
 * `Ty.supPair cu cs` = `supG cs.gen` when `cu` is a Converter, `supB` when `cu` is a BaseConverter;
-* `Ty.unionsOK w tup`, `World.unionsOK tup`   every class union `Union[K…(, None)]` in the type / in the field types of the
+* `Ty.unionsOK w tup`, `World.unionsOK tup`   the two world-dependent scope conditions of a type.  (1) every `Literal[...]`
+                    CONTAINING ENUM MEMBERS is in the round-trip scope (`litOK`): its arguments are genuine members / leaf
+                    values and each is found again under its own key in `_structure_enum_literal`'s dict
+                    `{(a.value if isinstance(a, Enum) else a): a for a in args}` -- the keys are pairwise different under
+                    `==` (`Literal[E.A, 1]` with `E.A.value == 1` is outside: `C01_enum_literal_collision_witness`).  Such a
+                    literal is unstructured by run-time class (a member becomes its value) and structured back to the
+                    member; not admitted as set element / mapping key (`Ty.hashPrim`).  The values of such a literal are
+                    exactly its arguments (`litConf`; a plain-value literal admits whatever is `in` its arguments, as the
+                    simple-literal hook does).  (2) every class union `Union[K…(, None)]` in the type / in the field types of the
                     class table is in the round-trip scope (`unionOKB`), stated with the predicates of the disambiguator
                     model (C12): distinct attrs/dataclass members; the decision function can be created for the union and for
                     every literal sub-union a member payload can be routed to (`Disambig.deepOk`, the hypothesis of
                     `C12_complete`); every `Literal`-typed attribute of a member is an `__init__` argument (the generated dict
                     hooks do not emit `init=False` attributes, so a literal discriminator among them would be missing);
                     `tup` = the tuple strategy, under which NO union is in scope (the decision function only accepts
-                    mappings).  Types without unions satisfy it trivially (`noUnion_unionsOK`).  The bridge
+                    mappings); a `Literal`-typed attribute of a union member is enum-free (discriminators).  Types without
+                    unions and without enum-member literals satisfy it trivially (`noUnion_unionsOK`).  The bridge
                     `World.table : World → Disambig.Table` and the lemma that the dict emitted for a conforming instance
                     of member `k` is a `Disambig.PayloadOf … k` (`payloadOf_unFields`) are in `Conv/Union.lean` and
                     `Lemmas/UnionPayload.lean`; `unionPick_member` applies `C12_complete`;
@@ -640,5 +649,55 @@ example : convStructure rtWorldNB ⟨true, true, true, false⟩ (.cls 1)
     (rtWorldNB_noUnion.unionsOK _) (by simp [Ty.unionsOK]) rtValueNB_conf rtValueNB_valid
 end Examples
 
+
+/-! ### `Literal[...]` containing enum members (non-vacuity + the collision witness)
+
+`rtWorldB` has the enum `E0 = [1, "x"]`.  `Literal[E0.M1, 1]` (keys `"x"`, `1`) is in scope: a list of its two values
+round-trips through every pair of converter classes; unstructuring gives `["x", 1]`. -/
+
+def litTy : Ty := .coll .list (.lit [.enumM 0 1, .int 1])
+def litVal : Obj := .coll .list [.enumM 0 1, .int 1, .enumM 0 1]
+
+theorem litTy_unionsOK (tup : Bool) : litTy.unionsOK rtWorldB tup = true := by
+  simp [litTy, Ty.unionsOK, litOK, litHasEnum, Obj.isEnumM, litArgOK, litLookup, litKey, enumValue, rtWorldB,
+    World.members, Obj.pyEq, Obj.num2?, Obj.isLeaf]
+
+theorem litVal_conf : conf rtWorldB litTy litVal = true := by
+  simp [litTy, litVal, conf, confL, litConf, litHasEnum, Obj.isEnumM, SK.structTo, CK.isSet]
+
+example : convUnstructure rtWorldB ⟨true, false, true, false⟩ litTy litVal = .coll .list [.str "x", .int 1, .str "x"] := by
+  simp [convUnstructure, litTy, litVal, un, unL, unAny, litHasEnum, Obj.isEnumM, mkColl, SK.unstructTo, enumValue,
+    rtWorldB, World.members, Cfg.core, CK.isSet]
+
+/-- Converter -> BaseConverter -/
+example : convStructure rtWorldB ⟨false, false, true, false⟩ litTy
+    (convUnstructure rtWorldB ⟨true, false, false, false⟩ litTy litVal) = some litVal :=
+  C01_roundtrip rtWorldB ⟨true, false, false, false⟩ ⟨false, false, true, false⟩ litTy litVal
+    rfl rfl rfl rtWorldB_WF rtWorldB_WFE (World.supB_supG rtWorldB_supB false) (by simp [litTy, Ty.supG, SK.structTo, CK.isSet])
+    (rtWorldB_noUnion.unionsOK _) (litTy_unionsOK _) litVal_conf (by simp [litVal, Obj.valid, Obj.validL])
+
+/-- BaseConverter -> Converter -/
+example : convStructure rtWorldB ⟨true, false, true, false⟩ litTy
+    (convUnstructure rtWorldB ⟨false, false, false, false⟩ litTy litVal) = some litVal :=
+  C01_roundtrip_interp rtWorldB ⟨false, false, false, false⟩ ⟨true, false, true, false⟩ litTy litVal
+    rfl rfl rfl rtWorldB_WF rtWorldB_WFE rtWorldB_supB
+    (by simp [litTy, Ty.supB, litHasEnum, Obj.isEnumM, SK.structTo, CK.isSet])
+    rtWorldB_noNT.ntOK (noNT_ntOK rtWorldB_noNT _)
+    (rtWorldB_noUnion.unionsOK _) (litTy_unionsOK _) litVal_conf (by simp [litVal, Obj.valid, Obj.validL])
+
+/-- **Witness: the scope condition `litOK` cannot be dropped.**  `Literal[E0.M0, 1]` with `E0.M0.value == 1`: both
+arguments have the key `1`, the later one wins in `_structure_enum_literal`'s dict, so the member comes back as the plain
+`1` (replayed on the implementation by the check). -/
+theorem C01_enum_literal_collision_witness :
+    convStructure rtWorldB ⟨true, false, true, false⟩ (.lit [.enumM 0 0, .int 1])
+      (convUnstructure rtWorldB ⟨true, false, true, false⟩ (.lit [.enumM 0 0, .int 1]) (.enumM 0 0)) = some (.int 1)
+    ∧ conf rtWorldB (.lit [.enumM 0 0, .int 1]) (.enumM 0 0) = true
+    ∧ Ty.unionsOK rtWorldB false (.lit [.enumM 0 0, .int 1]) = false := by
+  refine ⟨?_, ?_, ?_⟩
+  · simp [convStructure, convUnstructure, un, unAny, stD, litStruct, litLookup, litKey, litHasEnum, Obj.isEnumM,
+      enumValue, rtWorldB, World.members, Cfg.core, Obj.pyEq, Obj.num2?, Res.toOption]
+  · simp [conf, litConf, litHasEnum, Obj.isEnumM]
+  · simp [Ty.unionsOK, litOK, litHasEnum, Obj.isEnumM, litArgOK, litLookup, litKey, enumValue, rtWorldB,
+      World.members, Obj.pyEq, Obj.num2?, Obj.isLeaf]
 
 end CattrsModel
